@@ -222,6 +222,52 @@ def user_defined_part(ctx, count, scratch):
             ctx.nontriv((sig, side, tuple(want)))
 
 
+def user_defined_df_part(ctx, count):
+    """equation constraints on dataframes: `x` and `y` of the equation are the sensor's coordinates in the columns NAMED as X_axis / Y_axis –
+    whatever else the frame carries (a 3-D point cloud constrained in its x–z plane has a column called y that is not the Y axis)"""
+    import pandas as pd
+    import pysensors.utils as U
+    rng = ctx.rng
+    for idx in range(count):
+        n = rng.randint(3, 12)
+        pts = [(rng.randint(0, 12) / 2, rng.randint(0, 12) / 2, rng.randint(0, 12) / 2) for _ in range(n)]
+        lay = rng.choice(["plain", "xz_plane", "zy_plane", "renamed_with_plain_decoys", "swapped"])
+        cols = {"x": [p[0] for p in pts], "y": [p[1] for p in pts], "z": [p[2] for p in pts]}
+        if lay == "plain":
+            X_axis, Y_axis = "x", "y"
+        elif lay == "xz_plane":
+            X_axis, Y_axis = "x", "z"
+        elif lay == "zy_plane":
+            X_axis, Y_axis = "z", "y"
+        elif lay == "swapped":
+            X_axis, Y_axis = "y", "x"
+        else:
+            cols = {"X_mm": cols["x"], "Y_mm": cols["y"], "x": [7.5 - v for v in cols["y"]], "y": [2 * v + 1 for v in cols["x"]]}
+            X_axis, Y_axis = "X_mm", "Y_mm"
+        cols["f"] = [1.0] * n
+        names = list(cols)
+        rng.shuffle(names)
+        df = pd.DataFrame({k: cols[k] for k in names})
+        rk = list(range(n)); rng.shuffle(rk)
+        eq, f = rng.choice(EQS)
+        ctx.evaluations += 1
+        ctx.count("equation_on_dataframe:" + lay)
+        try:
+            obj = U.UserDefinedConstraints(np.array(rk), data=df, equation=eq, X_axis=X_axis, Y_axis=Y_axis, Field="f")
+            got, _ = obj.constraint()
+        except Exception as e:
+            ctx.violation("concrete", f"equation constraint on a dataframe raised {type(e).__name__}: {e}",
+                          {"signature": "equation-dataframe-raises", "layout": lay, "points": pts, "ranking": rk, "equation": eq, "index": idx})
+            continue
+        want = [s for s in rk if f(cols[X_axis][s], cols[Y_axis][s])]
+        if [int(g) for g in got] != want:
+            ctx.violation("concrete", f"equation '{eq}' on a dataframe (X_axis={X_axis!r}, Y_axis={Y_axis!r}, columns {names}) marks "
+                                      f"{[int(g) for g in got]}, sensors where it is true: {want}",
+                          {"signature": "equation-polarity:dataframe", "layout": lay, "points": pts, "ranking": rk, "equation": eq, "index": idx})
+        elif 0 < len(want) < n:
+            ctx.nontriv(("eq-df", lay, eq, tuple(want)))
+
+
 def gen_identifier(rng):
     alphabet = "apy_1bz"
     while True:
@@ -367,6 +413,7 @@ def _dynamic(ctx):
         dfbox_part(ctx, ctx.scale(120, 2000))
         coords_part(ctx, ctx.scale(120, 2000))
         user_defined_part(ctx, ctx.scale(60, 600), scratch)
+        user_defined_df_part(ctx, ctx.scale(60, 600))
         loader_part(ctx, scratch)
         loader_sequences(ctx, scratch, ctx.scale(40, 400))
     finally:
